@@ -9,6 +9,7 @@
 package backend
 
 import (
+	"errors"
 	"io/fs"
 	"os"
 
@@ -54,6 +55,13 @@ func MkdirAll(path string, uid, gid int, doChown bool, dirPerm fs.FileMode) erro
 		if err != nil {
 			return err
 		}
+	} else if j == 0 && errors.Is(err, fs.ErrNotExist) {
+		// path is the first element of a relative path: the bucket
+		// directory itself. Buckets are only ever created by
+		// CreateBucket; when the directory is missing here the bucket
+		// was deleted while the request was in flight, and creating it
+		// again would bring a deleted bucket back.
+		return s3err.GetAPIError(s3err.ErrNoSuchBucket)
 	}
 
 	// Parent now exists; invoke Mkdir and use its result.
